@@ -94,7 +94,8 @@ def run(ctx):
     nrand = 600 if ctx.thorough else 150
     for _ in range(nrand):
         n = rng.randint(0, 24)
-        pool = [rng.choice([rng.randrange(0, 6), rng.randrange(0, 2 ** 63), 2 ** 63 - 1, rng.randrange(0, 2 ** 32)])
+        pool = [rng.choice([rng.randrange(0, 6), rng.randrange(0, 2 ** 64), 2 ** 63 - 1, 2 ** 63, 2 ** 64 - 1, 2 ** 64 - 2, 2 ** 32,
+                            2 ** 32 + 1, 2 ** 32 - 1, rng.randrange(0, 2 ** 32)])
                 for _ in range(max(1, n // 2 + 1))]
         a = [rng.choice(pool) for _ in range(n)]
         sort_rows.append(sort_line(a))
@@ -108,6 +109,13 @@ def run(ctx):
         elif mode == 3:
             b.append(rng.choice(pool))
         perm_rows.append(perm_line(a, b))
+    big = [0, 1, 2 ** 32, 2 ** 64 - 2, 2 ** 64 - 1]
+    for n in range(1, 4):
+        for t in itertools.product(big, repeat=n):
+            sort_rows.append(sort_line(t))
+    for a in itertools.product(big, repeat=2):
+        for b in itertools.product(big, repeat=2):
+            perm_rows.append(perm_line(a, b))
     shards = []
     for i, c in enumerate(chunks(sort_rows, 1200)):
         shards.append(dict(name="sort/%d" % i, src=tu(c, []), is_text=True, flavour="plain-dbg"))
@@ -115,7 +123,7 @@ def run(ctx):
         shards.append(dict(name="perm/%d" % i, src=tu([], c), is_text=True, flavour="plain-dbg"))
     ctx.run_shards(shards)
     return ctx.finish(
-        rule=("sorting: every sequence of length <= %d over {0..4} (exhaustive) + seeded random sequences of length <= 24 with values up to 2^63 "
+        rule=("sorting: every sequence of length <= %d over {0..4} (exhaustive) + seeded random sequences of length <= 24 with values up to SIZE_MAX (2^32 and 2^63 neighbours, SIZE_MAX and SIZE_MAX-1 planted) "
               "and planted duplicates; predicate: every ordered pair of sequences of length <= %d over {0..3} (exhaustive) + random "
               "shuffled/perturbed partners.  The metaprogram's outputs are materialised as constant tables and compared at run time with "
               "std::sort / std::is_permutation.  non-trivial: sort input unsorted or with a duplicate; predicate pair not identical and not "
